@@ -108,6 +108,13 @@ func ProfileInterop(avoid map[string]string) *Profile {
 	return &Profile{Name: "interop", MaxDataMessages: 2, MaxFields: 4, Nested: true, Maps: true, Oneofs: true,
 		Optionals: true, Repeateds: true, Enums: true, Timestamps: true, MessageFields: true,
 		MaxServices: 2, MaxMethods: 3, Transport: true, BasePaths: true, Headers: true, QueryOnBody: false,
-		Features: Features("int64", "nullable", "bytes", "timestamp", "empty", "oneof_disc", "unwrap_root_list", "unwrap_root_map", "unwrap_map_value"),
+		Features:        Features("int64", "nullable", "bytes", "timestamp", "empty", "oneof_disc", "unwrap_root_list", "unwrap_root_map", "unwrap_map_value"),
 		AnnotateAnyCard: true, ContractStrict: false, TSServer: true, Avoid: avoid}
+}
+
+// ProfileRoutes: verb / path / placement shapes for the agreement check (C03).
+func ProfileRoutes(avoid map[string]string) *Profile {
+	return &Profile{Name: "routes", MaxDataMessages: 1, MaxFields: 3, Optionals: true, Repeateds: true, Enums: true, MessageFields: true,
+		MaxServices: 3, MaxMethods: 4, Transport: true, BasePaths: true, OddBasePaths: true, DefaultPaths: true, QueryOnBody: true, Headers: true,
+		TSServer: true, Avoid: avoid}
 }
